@@ -24,6 +24,7 @@ The oracle (`search`) restates the property on the public API only, with its own
 import json
 import math
 import os
+import random
 import struct
 import warnings
 
@@ -47,7 +48,13 @@ THEOREMS = [
         "rbe3_fullrank_three_grids rbe3_reproduces_rb_three_grids "
         "rbe3_um_indep rbe3_um_mixed rbe3_um_dep um_plan_branch um_plan_indep um_plan_dep "
         "rbe3_um_any rbe3_um_any_grids "
-        "chain_order_irrelevant chain_circular_refused chain_dup_unequal_refused chain_resolved"
+        "chain_order_irrelevant chain_circular_refused chain_dup_unequal_refused chain_resolved "
+        "build_coords_resolves_iff build_coords_unresolved_error build_coords_levels_are_depths "
+        "build_coords_order_is_topological build_coords_independent_of_card_order build_coords_duplicates "
+        "formrbe3_is_rbe3Grid_on_sorted_lists formrbe3_sorted_is_perm formrbe3_row_order formrbe3_group_order "
+        "formrbe3_um_order formrbe3_weights_scale_invariant formrbe3_rigid_body_exact "
+        "cyl_roundtrip_everywhere sph_roundtrip_everywhere cyl_axis_convention sph_axis_convention "
+        "chain_consistent_point_everywhere rb_axis_convention rbgeom_uset_axis_angles_exact"
     ).split()
 ]
 TRUSTED = [
@@ -113,6 +120,7 @@ MANIFEST = {
 }
 
 TOL = 1e-9
+TOL_AXIS = 1e-12
 
 
 # ---------------------------------------------------------------------------------------
@@ -515,7 +523,15 @@ def _plan_world(ctx, rng, w, items):
             return np.atleast_2d(n2p.getcoordinates(uset, ids, csys, cr2))
 
         def skip_get(kt=kt, ko=ko, kT=kT):
+            if w.get("axis"):
+                # exact geometry: a grid is either exactly on the axis (compared, angles included) or well off it
+                return np.array([kt != 1 and 0.0 < _rho(kt, ko, kT, p) < 0.1 for p in plocs])
             return np.array([kt != 1 and _rho(kt, ko, kT, p) < 0.1 for p in plocs])
+
+        if w.get("axis") and kt != 1:
+            for e, p in zip(gents, plocs):
+                if _rho(kt, ko, kT, p) == 0.0:
+                    ctx.count("get:%s-exactly-on-axis" % ("cyl" if kt == 2 else "sph"))
 
         ang = None if kt == 1 else ([1] if kt == 2 else [1, 2])
         br = "get:typ%d" % kt
@@ -570,6 +586,9 @@ def _plan_world(ctx, rng, w, items):
                 ctx.count("rb:cout-typ%d" % infos[e["cout"]][0])
             else:
                 ctx.count("rb:qset-grid")
+            if "ax" in e and e["ax"][0] != "free":
+                ctx.count("rb:%s-%s" % ("cyl" if infos[e["cout"]][0] == 2 else "sph",
+                                         e["ax"][0] if len(e["ax"]) == 1 else "quarter%d" % e["ax"][1]))
         if any(e["kind"] == "sp" for e in w["entries"]):
             ctx.count("rb:with-spoint")
         items.append(("rb", dict(inp0, op="rb", ref=list(ref)), "rb %s %s" % (W, reftxt), impl_rb,
@@ -1038,10 +1057,13 @@ def _guard(fn, secs=None):
 
 def _gen_cards(rng):
     """-> (scenario, rows): rows = [cid, typ, refcid, A(3), B(3), C(3)] in the order given to build_coords"""
-    scen = rng.choice(["valid"] * 6 + ["dup-equal", "dup-equal3", "dup-unequal", "dup-unequal2", "missing-ref",
-                                        "self-ref", "cycle2", "cycle3", "empty", "single"])
+    scen = rng.choice(["valid"] * 4 + ["deep-decreasing", "deep-decreasing", "deep-increasing", "deep-zigzag", "large",
+                                        "dup-equal", "dup-equal3", "dup-unequal", "dup-unequal2", "missing-ref",
+                                        "missing-ref-deep", "self-ref", "cycle2", "cycle3", "empty", "single"])
     if scen == "empty":
         return scen, []
+    if scen.startswith("deep-") or scen in ("large", "missing-ref-deep"):
+        return scen, _gen_deep_cards(rng, scen)
     N = 1 if scen == "single" else rng.randint(2, 7)
     cs = _gen_cs(rng, N)
     rows = [[s["id"], s["typ"], _cid(cs, s["ref"])] + list(s["A"]) + list(s["B"]) + list(s["C"]) for s in cs]
@@ -1086,6 +1108,47 @@ def _gen_cards(rng):
         rows += [anycard(k1, k2), anycard(k2, k3), anycard(k3, k1)]
     rng.shuffle(rows)
     return scen, [[float(v) for v in r] for r in rows]
+
+
+def _gen_deep_cards(rng, scen):
+    """one reference chain 3..8 deep (plus side branches) whose ids decrease / increase / alternate along the
+    chain from the root outwards; `large`: 17..24 cards (numpy's argsort is no longer an insertion sort);
+    `missing-ref-deep`: the chain hangs on an id nobody defines.  Rectangular systems only on the chain, so any
+    axis-parallel A, B, C are valid whatever the reference."""
+    depth = rng.randint(3, 8)
+    n = depth + rng.randint(0, 3) if scen != "large" else rng.randint(17, 24)
+    pool = sorted(rng.sample(range(1, 3000), n))
+    if scen == "deep-decreasing":
+        chain = pool[-depth:][::-1]          # root has the largest id, every child a smaller one
+    elif scen == "deep-increasing":
+        chain = pool[:depth]
+    elif scen == "deep-zigzag":
+        lo, hi = pool[:], []
+        chain = []
+        while len(chain) < depth:
+            chain.append(lo.pop() if len(chain) % 2 == 0 else lo.pop(0))
+    else:
+        chain = rng.sample(pool, depth)
+    rest = [x for x in pool if x not in chain]
+    rows = []
+    parent = {}
+    for i, cid in enumerate(chain):
+        parent[cid] = 0 if i == 0 else chain[i - 1]
+    for cid in rest:
+        parent[cid] = rng.choice([0] + chain + [x for x in rest if x in parent])
+    if scen == "missing-ref-deep":
+        parent[chain[0]] = 3000 + rng.randint(1, 50)
+    for cid in chain + rest:
+        A = [float(rng.randint(-9, 9)) for _ in range(3)]
+        i, j = rng.sample(range(3), 2)
+        B = A[:]
+        B[i] += rng.choice([-3.0, -1.0, 1.0, 2.0])
+        C = A[:]
+        C[j] += rng.choice([-2.0, -1.0, 1.0, 4.0])
+        typ = 1 if cid in chain[:-1] or any(parent[x] == cid for x in parent) else rng.choice([1, 2, 3])
+        rows.append([cid, typ, parent[cid]] + A + B + C)
+    rng.shuffle(rows)
+    return [[float(v) for v in r] for r in rows]
 
 
 def _cards_line(op, rows):
@@ -1238,6 +1301,78 @@ def _plan_mk(ctx, rng, items):
     items.append(("mk", {"op": "mk", "mode": mode, "rows": rows}, _cards_line("mk", rows), impl, cmp, None, None, None))
 
 
+def _perm_frame(rng):
+    """integer points A, B, C (relative to A) whose A-B-C triad is a signed permutation matrix: B - A along one
+    axis, C - A along another -> (dB, dC)"""
+    i, j = rng.sample(range(3), 2)
+    dB = [0, 0, 0]
+    dC = [0, 0, 0]
+    dB[i] = rng.choice([-3, -1, 1, 2])
+    dC[j] = rng.choice([-2, -1, 1, 4])
+    return dB, dC
+
+
+def _axis_world(rng):
+    """exact geometry at the singular places: systems whose transform is a signed permutation matrix and whose
+    origin is an integer point (one rectangular system optionally in between), grids exactly on the polar axis of
+    a cylindrical / spherical system (entered in that system, or in basic at the integer point) and grids at
+    azimuths of exactly 0 / 90 / 180 / 270 degrees.  Every entry is tagged `ax`:
+    ["axis"] | ["origin"] | ["quarter", k] | ["quarter-in", k] | ["free"]."""
+    cs = []
+    ids = rng.sample(range(1, 1000), 3)
+    if rng.random() < 0.5:
+        A = [rng.randint(-9, 9) for _ in range(3)]
+        dB, dC = _perm_frame(rng)
+        cs.append({"id": ids[0], "typ": 1, "ref": 0, "A": A, "B": [a + d for a, d in zip(A, dB)],
+                   "C": [a + d for a, d in zip(A, dC)]})
+    for typ in rng.sample([2, 3], rng.randint(1, 2)):
+        ref = len(cs) if cs and cs[-1]["typ"] == 1 and rng.random() < 0.6 else 0
+        if ref and cs[ref - 1]["typ"] != 1:
+            ref = 0
+        A = [rng.randint(-9, 9) for _ in range(3)]
+        dB, dC = _perm_frame(rng)
+        cs.append({"id": ids[len(cs)], "typ": typ, "ref": ref, "A": A, "B": [a + d for a, d in zip(A, dB)],
+                   "C": [a + d for a, d in zip(A, dC)]})
+    cs = [dict(c, A=[float(v) for v in c["A"]], B=[float(v) for v in c["B"]], C=[float(v) for v in c["C"]]) for c in cs]
+    infos = _ref_resolve(cs)
+    polar = [k for k in range(1, len(cs) + 1) if cs[k - 1]["typ"] != 1]
+    gids = rng.sample(range(1, 5000), 9)
+    entries = []
+    kinds = ["axis-in", "axis-basic", "quarter-basic", "quarter-in", "axis-basic", "quarter-basic", "origin", "free"]
+    rng.shuffle(kinds)
+    for j, kind in enumerate(kinds[: rng.randint(5, 8)]):
+        k = rng.choice(polar)
+        typ, o, T = infos[k]
+        Ti = np.rint(T)
+        r = float(rng.randint(1, 12))
+        z = float(rng.choice([-7, -2, 3, 5, 11]))
+        q = rng.randrange(4)
+        cq, sq = [(1, 0), (0, 1), (-1, 0), (0, -1)][q]
+        e = {"kind": "grid", "id": gids[j], "nasset": "b", "cout": k}
+        if kind == "axis-in":
+            e.update(cin=k, ax=["axis"],
+                     xyz=[0.0, rng.choice([0.0, 37.5, 90.0, 180.0, -120.0]), z] if typ == 2
+                     else [abs(z), 0.0, rng.choice([0.0, 45.0, 90.0, -135.0, 180.0])])
+        elif kind == "axis-basic":
+            e.update(cin=0, ax=["axis"], xyz=(o + Ti @ np.array([0.0, 0.0, z])).tolist())
+        elif kind == "origin":
+            e.update(cin=0, ax=["origin"], xyz=o.tolist())
+        elif kind == "quarter-basic":
+            zz = z if typ == 2 else 0.0
+            e.update(cin=0, ax=["quarter", q], xyz=(o + Ti @ np.array([r * cq, r * sq, zz])).tolist())
+        elif kind == "quarter-in":
+            ang = [0.0, 90.0, 180.0, rng.choice([270.0, -90.0])][q]
+            e.update(cin=k, ax=["quarter-in", q], xyz=[r, ang, z] if typ == 2 else [r, 90.0, ang])
+        else:
+            e.update(cin=0, ax=["free"], cout=rng.randint(0, len(cs)),
+                     xyz=[float(rng.randint(-9, 9)) + 0.5 for _ in range(3)])
+            ct, co, cT = infos[e["cout"]]
+            if ct != 1 and _rho(ct, co, cT, np.array(e["xyz"])) < 0.5:
+                e["cout"] = 0
+        entries.append(e)
+    return {"cs": cs, "entries": entries, "axis": True}
+
+
 def _boundary_world(rng):
     """a spherical (and a cylindrical) system in a rotated frame with grids entered at azimuths exactly on the
     branch boundaries of getcoordinates: after the rotation to basic and back the small component is round-off"""
@@ -1333,6 +1468,8 @@ def correspondence(ctx):
             worlds.append(_gen_world(rng))
     for i in range(ctx.pick(30, 300)):
         worlds.append(_floatify(_boundary_world(rng)))
+    for i in range(ctx.pick(24, 240)):
+        worlds.append(_floatify(_axis_world(rng)))
     for w in worlds:
         _plan_world(ctx, rng, w, items)
     for i in range(ctx.pick(90, 1000)):
@@ -1341,6 +1478,8 @@ def correspondence(ctx):
     for i in range(ctx.pick(150, 1500)):
         w = _gen_world(rng, N=rng.randint(0, 4), G=rng.randint(4, 7), plain=True)
         _plan_rbe3(ctx, rng, w, items, kind=UM_KINDS[i % len(UM_KINDS)])
+    for i in range(ctx.pick(144, 1440)):
+        _plan_rbe3w(ctx, rng, items, W_KINDS[i % len(W_KINDS)])
     for i in range(ctx.pick(250, 2500)):
         _plan_bc(ctx, rng, items)
     for i in range(ctx.pick(120, 1200)):
@@ -1360,12 +1499,13 @@ def correspondence(ctx):
                 except Exception as e:
                     got = "exception %s: %s" % (type(e).__name__, e)
                 w = inp.get("world")
-                ctx.case(key, nontrivial=True if w is None else (_nontrivial(w) or stream == "rbe3"), branch=branch)
+                ctx.case(key, nontrivial=True if w is None else (_nontrivial(w) or stream in ("rbe3", "rbe3w")),
+                         branch=branch)
                 ctx.count("stream:" + stream)
                 bad = (_cmp_rbe3 if shape is None else shape)(rep, got, inp)
                 if bad is not None:
                     ctx.disagree(stream, inp, bad[0], bad[1])
-                elif stream == "rbe3" and ctx.hist.get("sampled:" + stream) is None and not isinstance(got, tuple):
+                elif stream in ("rbe3", "rbe3w") and ctx.hist.get("sampled:" + stream) is None and not isinstance(got, tuple):
                     ctx.count("sampled:" + stream)
                     ctx.sample({"stream": stream, "request_head": line[:80],
                                 "impl_head": np.asarray(got).ravel()[:6].tolist()})
@@ -1395,6 +1535,8 @@ def correspondence(ctx):
                     got = got[~sk]
                     model = model[~sk]
             sc = _scale(w)
+            if w.get("axis"):
+                sc *= TOL_AXIS / TOL  # exact geometry (signed-permutation transforms, integer points): 1e-12
             ok, err = _close(got, model, sc, ang)
             if not ok:
                 ctx.disagree(stream, inp, got.tolist(), model.tolist())
@@ -1405,7 +1547,14 @@ def correspondence(ctx):
     for k in [k for k in ctx.hist if k.startswith("sampled:")]:
         del ctx.hist[k]
     ctx.require_branches(
-        ["stream:" + s for s in ("cs", "loc", "get", "rb", "rbg", "mv", "rbc", "rbe3", "rep", "bc", "mk")]
+        ["stream:" + s for s in ("cs", "loc", "get", "rb", "rbg", "mv", "rbc", "rbe3", "rbe3w", "rep", "bc", "mk")]
+        + ["rbe3w:kind-" + k for k in W_KINDS]
+        + ["rbe3w:table-with-spoint", "rbe3w:table-with-qset-grid", "rbe3w:weighted-group", "rbe3w:single-id-group",
+           "get:cyl-exactly-on-axis", "get:sph-exactly-on-axis", "rb:cyl-axis", "rb:sph-axis", "rb:cyl-origin",
+           "rb:sph-origin"]
+        + ["rb:%s-quarter%d" % (t, k) for t in ("cyl", "sph") for k in range(4)]
+        + ["bc:scen-deep-decreasing", "bc:scen-deep-increasing", "bc:scen-deep-zigzag", "bc:scen-large",
+           "bc:scen-missing-ref-deep", "bc:scen-dup-unequal", "bc:scen-cycle3"]
         + ["get:typ1", "get:typ2", "get:typ3", "get:sph-theta-via-sin", "get:sph-theta-via-cos",
            "get:sph-azimuth-180", "get:sph-azimuth-minus-90", "get:sph-azimuth-0-or-90", "get:sph-azimuth-diagonal",
            "rb:cout-typ1", "rb:cout-typ2", "rb:cout-typ3", "rb:qset-grid", "rb:with-spoint", "rb:ref-g", "rb:ref-x",
@@ -1421,6 +1570,30 @@ def correspondence(ctx):
 
 # ---------------------------------------------------------------------------------------
 # model-free oracle
+
+
+def _exact_rows(typ, x, refl, ax):
+    """exact rows of rbgeom_uset for a grid of an axis world, in rational arithmetic: x = the grid's six uset
+    rows (location; id/type; origin; T, a signed permutation matrix), refl = reference point"""
+    from fractions import Fraction as F
+
+    T = [[F(int(round(v))) for v in row] for row in x[3:]]
+    g = [sum(T[r][c] * (F(float(x[0][r])) - F(float(x[2][r]))) for r in range(3)) for c in range(3)]  # Tt (p - o)
+    d = [F(float(x[0][i])) - F(float(refl[i])) for i in range(3)]
+    if ax[0] in ("quarter", "quarter-in"):
+        c, sn = [(1, 0), (0, 1), (-1, 0), (0, -1)][ax[1]]
+        Q = [[c, sn, 0], [-sn, c, 0], [0, 0, 1]] if typ == 2 else [[c, sn, 0], [0, 0, -1], [-sn, c, 0]]
+    elif typ == 2:
+        Q = [[1, 0, 0], [0, 1, 0], [0, 0, 1]]
+    else:
+        # on the polar axis: theta = atan2(0, z) = 0 | 180 -> [[s, 0, c], [c, 0, -s], [0, 1, 0]] with s = 0, c = +-1
+        c = -1 if g[2] < 0 else 1
+        Q = [[0, 0, c], [c, 0, 0], [0, 1, 0]]
+    QT = [[sum(F(Q[i][k]) * T[j][k] for k in range(3)) for j in range(3)] for i in range(3)]  # Q Tt
+    S = [[F(0), d[2], -d[1]], [-d[2], F(0), d[0]], [d[1], -d[0], F(0)]]
+    top = [QT[i] + [sum(QT[i][k] * S[k][j] for k in range(3)) for j in range(3)] for i in range(3)]
+    bot = [[F(0)] * 3 + QT[i] for i in range(3)]
+    return np.array([[float(v) for v in row] for row in top + bot])
 
 
 def _tname(t):
@@ -1506,7 +1679,14 @@ def _oracle_world(ctx, w, style=0, rbe3_case=None, rep=None, seed=0):
             fail("roundtrip-%s-raises-%s" % (_tname(ityp), type(ex).__name__), "getcoordinates raised: %s" % ex,
                  {"check": "roundtrip", "gid": e["id"]}, repr(ex), e["xyz"])
             continue
-        if not _coords_close(back, e["xyz"], ityp, tol):
+        onaxis = ityp != 1 and _rho(ityp, np.zeros(3), np.eye(3), _to_rect(ityp, e["xyz"])) < 1e-9 * sc
+        if onaxis:
+            # on the polar axis the azimuth (and at the origin the polar angle) is not defined: the same *point* is
+            # required, in the coordinates the code chooses there (checked under "axis-convention")
+            same = np.max(np.abs(_to_rect(ityp, back) - _to_rect(ityp, e["xyz"]))) <= tol
+        else:
+            same = _coords_close(back, e["xyz"], ityp, tol)
+        if not same:
             fail("roundtrip-same-system-%s" % _tname(ityp),
                  "a location entered in a system and queried back in it is a different point",
                  {"check": "roundtrip", "gid": e["id"], "depth": _depth(cs, kin)}, np.asarray(back).tolist(), e["xyz"])
@@ -1516,8 +1696,21 @@ def _oracle_world(ctx, w, style=0, rbe3_case=None, rep=None, seed=0):
                 q = np.asarray(n2p.getcoordinates(uset, p[None, :], _cid(cs, k), cr), float)
                 if kt != 1:
                     ci = np.asarray(cr[cs[k - 1]["id"]], float)
-                    if _rho(kt, ci[1], ci[2:], p) < 0.1:
+                    rho = _rho(kt, ci[1], ci[2:], p)
+                    if rho < 0.1 and not (w.get("axis") and rho == 0.0):
                         continue
+                    if rho == 0.0:
+                        # exactly on the polar axis: the azimuth has no meaning, the code reports a multiple of 180
+                        # (atan2 of two zeros; 0 over the reals), R = 0 (cylindrical) resp. theta = 0 | 180
+                        ctx.count("oracle:on-axis-%s" % _tname(kt))
+                        okc = (q[0] == 0.0 and q[1] % 180.0 == 0.0) if kt == 2 else (
+                            q[1] % 180.0 == 0.0 and q[2] % 180.0 == 0.0)
+                        if not okc:
+                            fail("axis-convention-%s" % _tname(kt),
+                                 "getcoordinates of a point exactly on the polar axis: R / angles not the axis values",
+                                 {"check": "via", "gid": e["id"], "k": k}, q.tolist(),
+                                 "[0, 0|180, z]" if kt == 2 else "[|z|, 0|180, 0|180]")
+                            continue
                 u2 = n2p.addgrid(None, 1, "b", _cid(cs, k), q, 0, dict(cr))
             except Exception as ex:
                 fail("roundtrip-via-%s-raises-%s" % (_tname(kt), type(ex).__name__), "raised: %s" % ex,
@@ -1560,6 +1753,17 @@ def _oracle_world(ctx, w, style=0, rbe3_case=None, rep=None, seed=0):
                              {"check": "rb", "gid": e["id"]}, blk.tolist(), "zeros")
                     continue
                 typ = int(x[1, 1])
+                if w.get("axis") and e.get("ax", ["free"])[0] != "free" and typ != 1:
+                    exact = _exact_rows(typ, x, refl, e["ax"])
+                    ctx.count("oracle:exact-rows-%s-%s" % (_tname(typ), e["ax"][0]))
+                    if np.max(np.abs(blk - exact)) > 1e-12 * max(1.0, float(np.max(np.abs(x[0] - refl)))):
+                        fail("rb-exact-%s-%s-ref-%s" % (_tname(typ), "-".join(map(str, e["ax"])).replace("-in", ""), reft),
+                             "rbgeom_uset rows of a grid on the polar axis / at an azimuth of k*90 degrees differ from "
+                             "the exact value (Q Tt [I, -(p-ref)x; 0, I], Q a signed permutation)",
+                             {"check": "rb", "gid": e["id"], "ref": np.asarray(ref).tolist()}, blk.tolist(),
+                             exact.tolist())
+                    if e["ax"][0] in ("axis", "origin"):
+                        continue
                 R = _local_frame(typ, x[2], x[3:], x[0])
                 want = np.kron(np.eye(2), R.T) @ _rigid6(x[0] - refl)
                 if np.max(np.abs(blk - want)) > tol:
@@ -1646,7 +1850,13 @@ def _oracle_world(ctx, w, style=0, rbe3_case=None, rep=None, seed=0):
                         break
                     c0 = n2p.getcoordinates(uset, e["id"], int(x0[1, 0]))
                     c1 = n2p.getcoordinates(un, e["id"], int(wantid))
-                    if not _coords_close(c1, c0, int(x0[1, 1]), tol):
+                    ot = int(x0[1, 1])
+                    if ot != 1 and _rho(ot, x0[2], x0[3:], x0[0]) < 0.1:
+                        # (next to) the polar axis: compare as points of the local rectangular frame
+                        okl = np.max(np.abs(_to_rect(ot, c1) - _to_rect(ot, c0))) <= tol
+                    else:
+                        okl = _coords_close(c1, c0, ot, tol)
+                    if not okl:
                         fail("replace-basic-cs-local-coordinates",
                              "coordinates of a grid in its own output system changed", ex_in,
                              np.asarray(c1).tolist(), np.asarray(c0).tolist())
@@ -1771,6 +1981,115 @@ def _oracle_rbe3(ctx, w, uset, X, case, fail, rng):
              "rbe3 with UM_List does not reproduce rigid motion at the m-set", um_in, (ru @ rr).tolist(), rm.tolist())
 
 
+def _oracle_wrapper(ctx, rng, seed):
+    """formrbe3's list handling on the API: the result does not depend on the order / Python form in which
+    Ind_List and UM_List name the DOF, nor on a common factor on the weights; the rows follow the digits of
+    DOF_dep; bystanders in the table (scalar points, q-set grids, other grids) change nothing."""
+    from pyyeti.nastran import n2p
+
+    w0 = _gen_world(rng, N=rng.randint(0, 3), G=rng.randint(4, 6), plain=True)
+    w, part = _with_bystanders(rng, w0)
+    case = _rbe3_case(rng, w, part)
+    ref = _rbe3_ref(w, case)
+    withum = rng.random() < 0.4
+    if not ref["cond"] <= (1e4 if withum else 1e6):
+        ctx.skip("oracle wrapper: cond(rb'Wrb) too large")
+        return
+    if withum and not _add_um(rng, w, case, ref, rng.choice(["indep", "dep", "mixed"])):
+        ctx.skip("oracle wrapper: no well-conditioned UM_List")
+        return
+    _oracle_wrapper_on(ctx, rng, w, case, seed)
+
+
+def _oracle_wrapper_on(ctx, rng, w, case, seed):
+    from pyyeti.nastran import n2p
+
+    ents = w["entries"]
+    part = sorted({case["dep"]} | {i for _, _, grp in case["groups"] for i in grp})
+    base = {"world": w, "style": 0, "check": "rbe3w", "case": case}
+
+    def fail(family, what, extra, observed, required):
+        ctx.fail(family, what, dict(base, **extra), observed, required)
+
+    try:
+        uset, _ = _build(w, 0, rng)
+        uset0, _ = _build({"cs": w["cs"], "entries": [ents[i] for i in part]}, 0, rng)
+    except Exception as e:
+        fail("build-raises-" + type(e).__name__, "addgrid/build_coords raised: %s" % e, {}, repr(e), "uset")
+        return
+    groups = [(d, wt, [ents[i]["id"] for i in grp]) for d, wt, grp in case["groups"]]
+    um = case.get("um")
+    um_pairs = [(ents[i]["id"], d) for i, d in um["list"]] if um else None
+    dep = ents[case["dep"]]["id"]
+
+    def call(us, grps, ddof, ump, forms=False):
+        il = []
+        for d, wt, ids in grps:
+            il += list(_pyform_ind(rng, d, wt, ids)) if forms else [d if wt is None else [d, wt], list(ids)]
+        ul = None if ump is None else [v for pr in ump for v in pr]
+        with warnings.catch_warnings():
+            warnings.simplefilter("ignore")
+            return np.asarray(n2p.formrbe3(us, dep, ddof, il, ul), float)
+
+    tag = "with-um-" + um["kind"] if um else "no-um"
+    try:
+        r0 = call(uset, groups, case["ddof"], um_pairs)
+        # 1. order and Python form of the lists
+        g2 = []
+        for d, wt, ids in groups:
+            ids = ids[:]
+            rng.shuffle(ids)
+            if len(ids) >= 2 and rng.random() < 0.5:
+                cut = rng.randint(1, len(ids) - 1)
+                g2 += [(d, wt, ids[:cut]), (d, wt, ids[cut:])]
+            else:
+                g2.append((d, wt, ids))
+        rng.shuffle(g2)
+        u2 = None
+        if um_pairs is not None:
+            u2 = [(i, int("".join(rng.sample(str(d), len(str(d)))))) for i, d in um_pairs]
+            rng.shuffle(u2)
+        r1 = call(uset, g2, case["ddof"], u2, forms=True)
+        sc = max(1.0, float(np.max(np.abs(r0))))
+        if r1.shape != r0.shape or np.max(np.abs(r1 - r0)) > 1e-9 * sc:
+            fail("rbe3-depends-on-list-order-" + tag, "formrbe3 gives a different matrix when Ind_List / UM_List name "
+                 "the same DOF in another order or Python form", {"groups2": [[d, wt, ids] for d, wt, ids in g2],
+                                                                 "um2": u2}, r1.tolist(), r0.tolist())
+            return
+        # 2. a common factor on all weights
+        c = rng.choice([0.25, 3.0, 10.0, 1e3])
+        g3 = [(d, c * (1.0 if wt is None else wt), ids) for d, wt, ids in groups]
+        r2 = call(uset, g3, case["ddof"], um_pairs)
+        if r2.shape != r0.shape or np.max(np.abs(r2 - r0)) > 1e-7 * sc:
+            fail("rbe3-weights-not-scale-invariant-" + tag, "multiplying every weight by %g changes the matrix" % c,
+                 {"factor": c}, r2.tolist(), r0.tolist())
+            return
+        # 3. bystanders in the table change nothing
+        r3 = call(uset0, groups, case["ddof"], um_pairs)
+        if r3.shape != r0.shape or np.max(np.abs(r3 - r0)) > 1e-9 * sc:
+            fail("rbe3-depends-on-other-table-rows-" + tag, "scalar points / grids that take no part in the element "
+                 "change the matrix", {}, r0.tolist(), r3.tolist())
+            return
+        # 4. rows follow the digits of DOF_dep (no UM_List)
+        if um_pairs is None and len(str(case["ddof"])) > 1:
+            dg = list(str(case["ddof"]))
+            perm = list(range(len(dg)))
+            rng.shuffle(perm)
+            r4 = call(uset, groups, int("".join(dg[i] for i in perm)), None)
+            if r4.shape != r0.shape or np.max(np.abs(r4 - r0[perm])) > 1e-9 * sc:
+                fail("rbe3-dependent-row-order", "the rows do not follow the digits of DOF_dep",
+                     {"perm": perm}, r4.tolist(), r0[perm].tolist())
+                return
+    except Exception as ex:
+        fail("rbe3-wrapper-raises-%s-%s" % (type(ex).__name__, tag), "formrbe3 raised: %s" % str(ex)[:120], {},
+             repr(ex), "a matrix")
+        return
+    # 5. rigid-body motion is reproduced with the columns in uset order (table with bystanders)
+    X = uset[_grows(uset)].loc[:, "x":"z"].values.reshape(-1, 6, 3)
+    _oracle_rbe3(ctx, w, uset, X, case, lambda fam, what, extra, obs, req: fail(fam, what, extra, obs, req),
+                 random.Random(seed))
+
+
 def _docstring_world():
     """the uset of formrbe3's docstring: four grids on the unit circle, the dependent one at the origin"""
     locs = [[1, 0, 0], [0, 1, 0], [-1, 0, 0], [0, -1, 0], [0, 0, 0]]
@@ -1800,7 +2119,7 @@ def _oracle_chain(ctx, rng, n):
         ctx.count("oracle:chain")
         inp = {"check": "chain", "scenario": scen, "rows": rows}
         arr = np.array(rows, float) if rows else np.zeros((0, 12))
-        bad = scen in ("dup-unequal", "dup-unequal2", "missing-ref", "self-ref", "cycle2", "cycle3")
+        bad = scen in ("dup-unequal", "dup-unequal2", "missing-ref", "missing-ref-deep", "self-ref", "cycle2", "cycle3")
         try:
             cr = _guard(lambda: n2p.build_coords(arr))
         except _Hang:
@@ -1889,6 +2208,8 @@ def search(ctx, hints):
             worlds.append(_gen_world(rng, N=5) if i % 4 == 3 else _gen_world(rng))
         for i in range(ctx.pick(12, 120)):
             worlds.append(_floatify(_boundary_world(rng)))
+        for i in range(ctx.pick(16, 160)):
+            worlds.append(_floatify(_axis_world(rng)))
         for i, w in enumerate(worlds):
             _oracle_world(ctx, w, style=i % 2, seed=ctx.seed * 100003 + i)
             ctx.count("oracle:worlds")
@@ -1897,6 +2218,11 @@ def search(ctx, hints):
         _oracle_chain(ctx, rng, ctx.pick(80, 800))
         if len(ctx.failures) - n0 > 12:
             return
+        for i in range(ctx.pick(40, 400)):
+            _oracle_wrapper(ctx, rng, ctx.seed * 104729 + i)
+            ctx.count("oracle:rbe3-wrapper")
+            if len(ctx.failures) - n0 > 12:
+                return
         for case in _um_probes():
             _oracle_world_rbe3_only(ctx, _docstring_world(), case, 1)
             ctx.count("oracle:rbe3-um-probe")
@@ -1940,6 +2266,24 @@ def _oracle_world_rbe3_only(ctx, w, case, seed):
     _oracle_rbe3(ctx, w, uset, X, case, fail, rng)
 
 
+def _replay_wrapper(sub, inp, f):
+    """re-run the list-handling checks of formrbe3 on the recorded world and case (the reorderings are drawn
+    again, with a few seeds)"""
+    w = _floatify(inp["world"])
+    case = dict(inp["case"])
+    case["groups"] = [tuple(g) for g in case["groups"]]
+    if case.get("um"):
+        case["um"] = dict(case["um"], list=[tuple(t) for t in case["um"]["list"]])
+    with warnings.catch_warnings():
+        warnings.simplefilter("ignore", FutureWarning)
+        for seed in range(6):
+            _oracle_wrapper_on(sub, random.Random(seed), w, case, seed)
+            same = [g for g in sub.failures if g["family"] == f["family"]]
+            if same:
+                return same[0]
+    return sub.failures[0] if sub.failures else None
+
+
 def _replay_chain(sub, inp, f):
     """re-run build_coords on the recorded cards"""
     import random
@@ -1965,6 +2309,8 @@ def replay(ctx, data):
     sub.fail = lambda *a: type(ctx).fail(sub, *a)
     if inp.get("check") == "chain":
         return _replay_chain(sub, inp, f)
+    if inp.get("check") == "rbe3w":
+        return _replay_wrapper(sub, inp, f)
     w = _floatify(inp["world"])
     with warnings.catch_warnings():
         warnings.simplefilter("ignore", FutureWarning)
